@@ -165,7 +165,10 @@ def run(ctx):
     cov["distribution"] = dict(stats)
     cov["samples"] = samples or [{"note": "none"}]
     ctx.assumptions += ["the abstraction of an SSA CFG to (target, reads, implicit array definition) per statement is done by the driver from the dump",
-                        "that the SSA construction passes the check for *every* CFG is not proved (translation validation per instance)"]
+                        "the construction is proved for every CFG on the models (SsaBuild, SsaWalk); the tie between those models and the code is the "
+                        "per-instance reproduction of the real SSA dumps (L2 with the real numbering, L3 with the model's own numbering)",
+                        "the stack of scopes of the environment is modelled by handing the map down (C14_scope_restores justifies it); the order of phi "
+                        "statements inside a block is not compared (C14_phi_order_irrelevant)"]
 
 
 def replay(ctx, path):
